@@ -759,6 +759,23 @@ def _join(I, recv, args, kw):
             raise Unsupported("join-list with non-empty separator")
         return it.acc
     items = ex.iter_concrete(it)
+    if items is None and not is_tagged(it, "gen"):
+        sq = ex.as_symbolic_seq(it)
+        if sq is not None and sq.elem == "str" and not getattr(sq, "rev", False) and getattr(sq, "inner", None) is None:
+            I.use("sep.join(list of str): uninterpreted fold; '' for the empty list, the element itself for a one-element list")
+            st = ex.to_str_term(recv)
+            r = F_joinlist(st, sq.t)
+            key = ("joinlist", st.sexpr(), sq.t.sexpr())
+            if key not in ex.facts_seen:
+                ex.facts_seen.add(key)
+                ex.assume(z3.Implies(z3.Length(sq.t) == 0, z3.Length(r) == 0))
+                ex.assume(z3.Implies(z3.Length(sq.t) == 1, r == sq.t[0]))
+            return SStr(r)
+        if sq is not None and sq.elem == "char" and not getattr(sq, "rev", False) and getattr(sq, "inner", None) is None:
+            if recv == "":
+                return SStr(sq.t)
+            I.use("sep.join(list(s)): uninterpreted function of (sep, s)")
+            return SStr(z3.Function("str_join_chars", StrSort, StrSort, StrSort)(ex.to_str_term(recv), sq.t))
     if items is None and is_tagged(it, "gen"):
         _, node, frame, seq = it
         src = ast.unparse(node.elt)
@@ -1351,3 +1368,143 @@ def _lv_append(I, recv, args, kw):
     d = recv.d
     d.val = z3.Store(d.val, recv.kt, z3.Concat(z3.Select(d.val, recv.kt), z3.Unit(t)))
     return None
+
+
+# ------------------------------------------------------------------ string library used by the string filters (C19)
+# Uninterpreted library functions: two calls with equal arguments give equal results, nothing else is known unless an axiom is
+# stated here. A contract `result == val.upper()` therefore pins *which* library function of *which* arguments is returned.
+import html as _html
+import urllib.parse as _urlparse
+
+F_capitalize = z3.Function("str_capitalize", StrSort, StrSort)
+F_replace_all = z3.Function("str_replace_all", StrSort, StrSort, StrSort, StrSort)
+F_words = z3.Function("str_split_whitespace", StrSort, z3.SeqSort(StrSort))
+F_split = z3.Function("str_split", StrSort, StrSort, z3.SeqSort(StrSort))
+F_joinlist = z3.Function("str_join", StrSort, z3.SeqSort(StrSort), StrSort)
+F_quote_plus = z3.Function("urllib_quote_plus", StrSort, StrSort)
+F_unquote_plus = z3.Function("urllib_unquote_plus", StrSort, StrSort)
+F_html_unescape = z3.Function("html_unescape", StrSort, StrSort)
+
+
+@meth("str", "capitalize")
+def _capitalize(I, recv, args, kw):
+    I.use("str.capitalize (uninterpreted)")
+    return SStr(F_capitalize(_S(I, recv)))
+
+
+def _replace_lib(I, recv, args, kw):
+    ex = I.ex
+    if len(args) == 2:
+        I.use("str.replace(a, b): an uninterpreted function of (s, a, b) (replace_all is undecided in both solvers)")
+        return SStr(F_replace_all(_S(I, recv), _S(I, args[0]), _S(I, args[1])))
+    if len(args) == 3 and args[2] == 1 and not isinstance(args[2], bool):
+        I.use("str.replace(a, b, 1): the first occurrence replaced (SMT-LIB str.replace; an empty a inserts b in front)")
+        return SStr(z3.Replace(_S(I, recv), _S(I, args[0]), _S(I, args[1])))
+    raise Unsupported("str.replace with a count other than 1")
+
+
+meth("str", "replace")(_replace_lib)
+
+
+@meth("str", "split")
+def _split(I, recv, args, kw):
+    ex = I.ex
+    if kw or len(args) > 1:
+        raise Unsupported("str.split with maxsplit")
+    t = _S(I, recv)
+    if not args or args[0] is None:
+        I.use("str.split(): the whitespace-separated words (uninterpreted sequence; every word is non-empty)")
+        r = F_words(t)
+        key = ("words", t.sexpr())
+        if key not in ex.facts_seen:
+            ex.facts_seen.add(key)
+            ex.assume(z3.Implies(z3.Length(t) == 0, z3.Length(r) == 0))
+        return HList(sym=SSeq(r, "str"))
+    sep = args[0]
+    if not isinstance(sep, (SStr, str)):
+        ex.raise_builtin("TypeError", "must be str or None")
+    st = _S(I, sep)
+    if ex.decide(z3.Length(st) == 0):
+        ex.raise_builtin("ValueError", "empty separator")
+    I.use("str.split(sep): uninterpreted sequence of at least one piece; sep.join(s.split(sep)) == s (library fact)")
+    r = F_split(t, st)
+    key = ("split", t.sexpr(), st.sexpr())
+    if key not in ex.facts_seen:
+        ex.facts_seen.add(key)
+        ex.assume(z3.Length(r) >= 1)
+        ex.assume(F_joinlist(st, r) == t)
+    return HList(sym=SSeq(r, "str"))
+
+
+@meth("str", "rpartition")
+def _rpartition(I, recv, args, kw):
+    ex = I.ex
+    (sep,) = args
+    t, st = _S(I, recv), _S(I, sep)
+    if ex.decide(z3.Length(st) == 0):
+        ex.raise_builtin("ValueError", "empty separator")
+    I.use("str.rpartition(sep): split at the last occurrence of sep (SMT-LIB str.last_indexof); ('', '', s) when absent")
+    i = z3.LastIndexOf(t, st)
+    if ex.decide(i < 0):
+        return ("", "", recv)
+    return (SStr(z3.SubSeq(t, 0, i)), sep, SStr(z3.SubSeq(t, i + z3.Length(st), z3.Length(t) - i - z3.Length(st))))
+
+
+@ext(_urlparse.quote_plus)
+def _quote_plus(I, args, kw):
+    if len(args) != 1 or kw:
+        raise Unsupported("quote_plus with options")
+    I.use("urllib.parse.quote_plus (uninterpreted); unquote_plus(quote_plus(s)) == s (library fact)")
+    ex = I.ex
+    t = _S(I, args[0])
+    r = F_quote_plus(t)
+    key = ("quote_plus", t.sexpr())
+    if key not in ex.facts_seen:
+        ex.facts_seen.add(key)
+        ex.assume(F_unquote_plus(r) == t)
+    return SStr(r)
+
+
+@ext(_urlparse.unquote_plus)
+def _unquote_plus(I, args, kw):
+    if len(args) != 1 or kw:
+        raise Unsupported("unquote_plus with options")
+    I.use("urllib.parse.unquote_plus (uninterpreted)")
+    return SStr(F_unquote_plus(_S(I, args[0])))
+
+
+@ext(_html.escape)
+def _html_escape(I, args, kw):
+    if len(args) != 1 or kw:
+        raise Unsupported("html.escape with quote=")
+    I.use("html.escape (uninterpreted; the same function markupsafe.escape applies to plain text); html.unescape(html.escape(s)) == s (library fact)")
+    ex = I.ex
+    t = _S(I, args[0])
+    r = F_esc(t)
+    key = ("html_escape", t.sexpr())
+    if key not in ex.facts_seen:
+        ex.facts_seen.add(key)
+        ex.assume(F_html_unescape(r) == t)
+    return SStr(r)
+
+
+@ext(_html.unescape)
+def _html_unescape(I, args, kw):
+    I.use("html.unescape (uninterpreted)")
+    return SStr(F_html_unescape(_S(I, args[0])))
+
+
+@meth("str", "rfind")
+def _rfind(I, recv, args, kw):
+    if len(args) != 1:
+        raise Unsupported("str.rfind with bounds")
+    I.use("str.rfind(sub): SMT-LIB str.last_indexof")
+    return SInt(z3.LastIndexOf(_S(I, recv), _S(I, args[0])))
+
+
+@ext(_urlparse.quote, _urlparse.unquote)
+def _quote_other(I, args, kw):
+    if len(args) != 1 or kw:
+        raise Unsupported("urllib quote/unquote with options")
+    I.use("urllib.parse.quote / unquote (uninterpreted, distinct from the *_plus functions)")
+    return SStr(z3.Function("urllib_quote_or_unquote", StrSort, StrSort)(_S(I, args[0])))
